@@ -75,6 +75,7 @@ def run_task(task):
             conc = {k: concretize(m, v, st) for k, v in st.inputs.items()}
             exp = {k: concretize(m, v, st) for k, v in getattr(st, 'observed', {}).items()}
             res['xcheck'] = h.crosscheck(case, conc, exp)
+            if res['xcheck'] and res['xcheck'].get('status') == 'diverged': res['xcheck']['prefix'] = prefix; res['xcheck']['case'] = repr(case)[:200]
         except Undecided as e: res['xcheck'] = {'status': 'skipped', 'why': str(e)[:100]}
         except Exception as e: res['xcheck'] = {'status': 'error', 'why': traceback.format_exc()[-800:]}
     s1 = sstr.STATS
